@@ -1,6 +1,7 @@
 package world
 
 import (
+	"strconv"
 	"strings"
 
 	"verif/harness/model"
@@ -16,6 +17,7 @@ type PoolCfg struct {
 	TSlash    int  // out of 8: probability that a pattern ends with '/'
 	Fanout    bool // add > 50 static siblings under one node
 	Deep      bool // add a chain of nested prefixes deeper than 25 tree levels
+	ManyParams bool // add two routes with more than 256 parameters before a fork (counters narrower than the 16-bit limit)
 	Ladder    bool // add static, {param} and *{catch-all} alternatives at three consecutive levels (deep backtracking)
 	HostHeavy bool // two fresh patterns in three carry a hostname, and mutations keep the host more often
 	Odd       bool // static segments also use bytes that sort before '*', between '*' and '{', and after '{'; wildcard names may carry '.', '-' or extend one another
@@ -24,6 +26,18 @@ type PoolCfg struct {
 // LadderPatterns, deepest first: at each of three levels a static, a parameter and a catch-all alternative. A request
 // such as /a/b/ca must fall back level by level; how deep the tree "thinks" it is depends on the registration order.
 var LadderPatterns = []string{"/a/b/c", "/a/b/{p2}", "/a/b/*{p2}", "/a/{p1}", "/a/*{p1}", "/{p0}", "/*{p0}"}
+
+// ManyParamPatterns are two routes sharing 260 parameters and then forking into a static and a parameter alternative:
+// a request that takes the static branch first and has to come back restores a parameter count above 255.
+func ManyParamPatterns() []string {
+	var sb strings.Builder
+	for i := 0; i < 260; i++ {
+		sb.WriteString("/{w")
+		sb.WriteString(strconv.Itoa(i))
+		sb.WriteString("}")
+	}
+	return []string{sb.String() + "/a/c", sb.String() + "/{wl}/b"}
+}
 
 var statics = []string{"a", "b", "ab", "ba", "c"}
 
@@ -67,15 +81,19 @@ func genSegment(s sim.Source, depth int, cfg PoolCfg, prevCatch bool) (seg strin
 	}
 }
 
-func genHost(s sim.Source) string {
+func genHost(s sim.Source, odd bool) string {
 	n := 1 + s.Intn("hostlabels", 3)
 	labs := make([]string, n)
 	for i := range labs {
+		name := "h" + string(rune('0'+i))
+		if odd && s.Intn("oddhostname", 2) == 0 {
+			name = "h%" + string(rune('0'+i)) // wildcard names are free text: '%' is as good as any other byte
+		}
 		switch s.Intn("hl", 6) {
 		case 0:
-			labs[i] = "{h" + string(rune('0'+i)) + "}"
+			labs[i] = "{" + name + "}"
 		case 1:
-			labs[i] = sim.Pick(s, "hls", hostLabels[:2]) + "{h" + string(rune('0'+i)) + "}"
+			labs[i] = sim.Pick(s, "hls", hostLabels[:2]) + "{" + name + "}"
 		default:
 			labs[i] = sim.Pick(s, "hls", hostLabels)
 		}
@@ -144,10 +162,20 @@ func mutate(s sim.Source, p string, cfg PoolCfg) string {
 		}
 	case 7: // change/add/remove host
 		if cfg.Hosts {
-			if host == "" || s.Intn("hmut", 2) == 0 {
-				host = genHost(s)
-			} else {
+			switch hm := s.Intn("hmut", 4); {
+			case host == "" || hm == 0:
+				host = genHost(s, cfg.Odd)
+			case hm == 1:
 				host = ""
+			default:
+				// a sibling host: one label replaced by another static text, the rest (parameters included) kept, so that
+				// the two hosts share a prefix or a suffix in the tree
+				labs := strings.Split(host, ".")
+				i := s.Intn("hlabel", len(labs))
+				if !strings.ContainsAny(labs[i], "{}") || len(labs) > 1 {
+					labs[i] = sim.Pick(s, "hls", hostLabels)
+				}
+				host = strings.Join(labs, ".")
 			}
 		}
 	}
@@ -171,7 +199,7 @@ func GenPool(s sim.Source, cfg PoolCfg) []*model.Pattern {
 		} else {
 			raw = genFresh(s, cfg)
 			if wh := s.Intn("withhost", 3); cfg.Hosts && (wh == 2 || (cfg.HostHeavy && wh == 1)) {
-				raw = genHost(s) + raw
+				raw = genHost(s, cfg.Odd) + raw
 			}
 		}
 		if seen[raw] {
@@ -202,6 +230,14 @@ func GenPool(s sim.Source, cfg PoolCfg) []*model.Pattern {
 		}
 		// siblings on the far sides of the wildcard markers, and wildcard children of the wide node with routes below them
 		for _, raw := range []string{"/f/!x", "/f/$x", "/f/|x", "/f/~x", "/f/{p}", "/f/*{q}", "/f/{p}/t", "/f/*{q}/t"} {
+			if p, err := model.Parse(raw); err == nil && !seen[raw] {
+				seen[raw] = true
+				out = append(out, p)
+			}
+		}
+	}
+	if cfg.ManyParams && len(out) > 0 {
+		for _, raw := range ManyParamPatterns() {
 			if p, err := model.Parse(raw); err == nil && !seen[raw] {
 				seen[raw] = true
 				out = append(out, p)
